@@ -1384,7 +1384,8 @@ class Atoms:
                      cell=self.cell)
 
     def cell_is_orthorhombic(self):
-        return (np.diag(self.cell) * np.identity(3) == self.cell).all()
+        # callers treat an orthorhombic cell as the box [0, Lx) x [0, Ly) x [0, Lz), so the diagonal must be positive as well
+        return bool((np.diag(self.cell) * np.identity(3) == self.cell).all() and (np.diag(self.cell) > 0).all())
 
     def cell_abc_alpha_beta_gamma(self):
         c = self.cell
